@@ -80,8 +80,11 @@ impl Prechecker for DefaultPrechecker {
                 None
             }
             PrecheckData::NotCheck { pinned_or_king } => {
-                if !pinned_or_king.has(mv.src()) {
+                if !pinned_or_king.has(mv.src()) && mv.kind() != MoveKind::Enpassant {
                     // The piece is not pinned and is not a king, so the move is definitely legal.
+                    //
+                    // Enpassant is an exception: it removes two pieces from the board, so it can
+                    // open an attack on the king even if the capturing pawn is not pinned.
                     Some(true)
                 } else {
                     None
